@@ -26,6 +26,17 @@ type ReplayFile struct {
 	Log       []string        `json:"log,omitempty"`
 	Note      string          `json:"note,omitempty"`
 	OrigTape  int             `json:"orig_tape_len,omitempty"`
+	// Sequence locates the run inside its explore worker (base seed, worker index, run
+	// index): used when a violation depends on state that survived earlier runs of the
+	// same process and the tape alone does not reproduce it.
+	Sequence *SeqInfo `json:"sequence,omitempty"`
+}
+
+// SeqInfo identifies the i-th run of an explore worker.
+type SeqInfo struct {
+	Base   uint64 `json:"base_seed"`
+	Worker int    `json:"worker"`
+	Index  int    `json:"index"`
 }
 
 // WorkerOut is what an explore worker prints as its last line.
@@ -208,7 +219,7 @@ func explore(t *testing.T, spec *props.Spec) {
 			out.ClassCounts[cls]++
 			if out.ClassCounts[cls] <= 1 && len(out.Violations) < maxViol {
 				out.Violations = append(out.Violations, ReplayFile{Property: spec.ID, Seed: seed, Tape: res.Tape, Labels: res.Labels,
-					Violation: res.Violation, Log: res.Log})
+					Violation: res.Violation, Log: res.Log, Sequence: &SeqInfo{Base: base, Worker: worker, Index: i}})
 			}
 		}
 		if i%64 == 63 {
